@@ -166,10 +166,13 @@ PROPS["C02"] = {
     "explanation": "Dispatch totality of the per-token writer switches, exhaustive over the finite type enum on one-token trees: for every writer "
                    "(html, latex, beamer, memoir, opendocument, opml, itmz) and every exportable token type T (computed from libMultiMarkdown.h/parser.h "
                    "of the tree under check) the real switch function is run with t->type == T: exit() is unreachable, the 'Unknown token type' escape "
-                   "is not taken, scratch->recurse_depth is restored.  %d exportable types x 7 writers." % len(_C02_E),
-    "slice": "mmd_export_token_html/latex/beamer/memoir/opendocument/opml/itmz (the switch statements; arms' callees havocked)",
+                   "is not taken, scratch->recurse_depth is restored.  %d exportable types x 7 writers.  Family 2 (bounded, c02_closure_*): the real "
+                   "strip_line_tokens_from_block, for every text-carrying block type and every line kind the grammar can leave in such a block (enumerated "
+                   "concretely, 27 kinds x 7 shapes per block type), leaves no LINE_* child the writers have no arm for, drops no inline token and keeps the "
+                   "child chain consistently linked." % len(_C02_E),
+    "slice": "mmd_export_token_html/latex/beamer/memoir/opendocument/opml/itmz (the switch statements; arms' callees havocked); strip_line_tokens_from_block (line-type closure, bounded shapes)",
     "not_reached": "that the lemon automaton accepts every sequence of line kinds (%parse_failure unreachable): parser.c is generated table-driven code; "
-                   "the line-type closure of strip_line_tokens_from_block (DESIGN C02 family 2) is not built: membership in the transient set is a stated assumption; "
+                   "the line kinds a block can contain (set T of the closure units) and the writers' LINE_* arms are transcribed from parser.y / the writers by hand; "
                    "the sub-writers (*_raw, *_math, *_tt) have silent default arms and are not covered; memory safety of the arms is not claimed here",
     "trusted_base": ["cbmc/goto-cc/goto-instrument 6.11.0 (symbolic execution with constant t->type, MiniSat2)", "regex extraction of the type enum and of producers in C02/defs.py"],
     "assumptions": _C02_ASSUME,
